@@ -175,7 +175,8 @@ PROPS["C04"] = {
 }
 PROPS["C15"] = {
     "quick": [L2("ZZ_S15a_Async", 1, params={"readers": 2}, labels=["async:", "events:"], note="4 async entry points x {none, retry, fallback∘retry} x outcome scripts; 2 concurrent readers; sync≡async; P=1"),
-              L2("ZZ_S08a_CancelRetry", 2, params={"src": 2}, labels=["cancel: ExecutionResult.Cancel"], note="Cancel before completion under retry ⇒ ErrExecutionCanceled; P=2")],
+              L2("ZZ_S08a_CancelRetry", 2, params={"src": 2}, labels=["cancel: ExecutionResult.Cancel"], note="Cancel before completion under retry ⇒ ErrExecutionCanceled; P=2"),
+              L2("ZZ_S08c_CancelHedge", 1, labels=["cancel: ExecutionResult.Cancel"], note="Cancel before completion under a hedge policy ⇒ ErrExecutionCanceled; P=1")],
     "thorough": [L2("ZZ_S15a_Async", 2, params={"readers": 2}, labels=["async:", "events:"], time_limit_s=9000, note="P=2"),
                  L2("ZZ_S08a_CancelRetry", 3, params={"src": 2}, labels=["cancel: ExecutionResult.Cancel"], time_limit_s=9000, note="Cancel racing the retry loop; P=3")],
     "assumptions": ["IsDone is set one step before Done is closed; 'exactly from then on' is read up to that linearisation window"],
